@@ -76,3 +76,7 @@ pub fn ref_decode_natural(bits: &[bool], pos: usize) -> RefNat {
         Err(e) => e,
     }
 }
+
+pub fn hex(b: &[u8]) -> String {
+    b.iter().map(|x| format!("{x:02x}")).collect()
+}
